@@ -3,11 +3,10 @@
 (first_missed) and the stated limit for seeds that stay missed (limit_note). Hand-maintained list; development tool."""
 import json, glob, os
 FIRST_MISSED = """C02-1 C02-2 C02-3 C03-1 C03-2 C03-3 C04-1 C04-3 C05-1 C05-2 C06-3 C08-2 C12-1 C12-2 C12-3 C13-3 C15-2 C15-3
-C01-r21 C02-r24 C03-r22 C03-r23 C03-r24 C04-r21 C04-r22 C04-r24 C05-r24 C06-r22 C06-r23 C07-r22 C07-r23 C09-r22 C09-r23
+C01-r21 C02-r24 C03-r21 C03-r22 C03-r23 C03-r24 C04-r21 C04-r22 C04-r24 C05-r24 C06-r22 C06-r23 C07-r22 C07-r23 C09-r22 C09-r23
 C11-r23 C11-r24 C12-r21 C12-r22 C13-r21 C13-r22 C13-r24 C14-r21 C14-r23 C14-r24 C15-r23 C16-r23 C17-r22 C17-r24""".split()
 LIMITS = {
  "C02-r22": "which vertex list an id refers to (ids derived from len(finalPoints) vs. vertices built from the input list) is not tracked by the index-space typing; stated limit",
- "C03-r21": "a stale cached pointer across loop iterations (value-currency of a local cache) has no structural rule here; stated limit",
  "C16-2": "IEEE signed-zero behaviour of the slab test is numeric; declined clause",
 }
 for d in sorted(glob.glob("/verif/seeded/C*")):
